@@ -1,5 +1,6 @@
 import ParryModel.C01.Lemmas
 import ParryModel.C09.Theorems17
+import ParryModel.C09.Model5
 /-!
 # C09 theorems, part 20: parry2d — `Aabb::transform_by` contains and is exact; the closed-form 2-D boxes are tight
 
@@ -232,5 +233,53 @@ theorem triangle2_aabb_tight (a b c : V2 K) (m : Iso2 K) :
     · exact ⟨A, Or.inl rfl, h.symm⟩
     · exact ⟨B, Or.inr (Or.inl rfl), h.symm⟩
     · exact ⟨C, Or.inr (Or.inr rfl), h.symm⟩
+
+/-! ## `Aabb::scaled` (2-D), histories of `scaled` on 2-D composites, composite bounding circle / swept box -/
+
+private theorem scale1' (lo hi s x : K) (h1 : lo ≤ x) (h2 : x ≤ hi) :
+    min (lo * s) (hi * s) ≤ x * s ∧ x * s ≤ max (lo * s) (hi * s) := by
+  rcases le_total 0 s with hs | hs
+  · exact ⟨(min_le_left _ _).trans (mul_le_mul_of_nonneg_right h1 hs),
+           le_trans (mul_le_mul_of_nonneg_right h2 hs) (le_max_right _ _)⟩
+  · exact ⟨(min_le_right _ _).trans (mul_le_mul_of_nonpos_right h2 hs),
+           le_trans (mul_le_mul_of_nonpos_right h1 hs) (le_max_left _ _)⟩
+
+/-- **`Aabb::scaled` (2-D)** contains `s∘p` for every point of the box, any signs of `s`. -/
+theorem aabb2_scaled_contains (a : Aabb2 K) (s p : V2 K) (h : BMem2 a p) :
+    letI := fieldNum K sq
+    BMem2 (a.scaled s) (p.cmul s) := by
+  obtain ⟨⟨h1, h2⟩, h3, h4⟩ := h
+  simp only [Aabb2.scaled, V2.cmul, V2.inf, V2.sup, BMem2, fieldNum_nmin, fieldNum_nmax]
+  exact ⟨scale1' _ _ _ _ h1 h2, scale1' _ _ _ _ h3 h4⟩
+
+/-- 2-D TriMesh / Polyline after a history of `scaled` -/
+theorem aabb2_scaledHist_contains (ss : List (V2 K)) :
+    letI := fieldNum K sq
+    ∀ (b : Aabb2 K) (p : V2 K), BMem2 b p → BMem2 (b.scaledHist ss) (ss.foldl V2.cmul p) := by
+  induction ss with
+  | nil => intro b p h; exact h
+  | cons s ss ih =>
+    intro b p h
+    simp only [Aabb2.scaledHist, List.foldl_cons]
+    exact ih _ _ (aabb2_scaled_contains sq b s p h)
+
+/-- 2-D `HeightField::set_scale` (corrected) and its histories, non-zero scales of any signs -/
+theorem heightfield2_hist_contains (ss : List (V2 K)) :
+    letI := fieldNum K sq
+    ∀ (b : Aabb2 K) (s0 p : V2 K), (s0.x ≠ 0 ∧ s0.y ≠ 0) → (∀ s ∈ ss, s.x ≠ 0 ∧ s.y ≠ 0) → BMem2 b p →
+      BMem2 (heightfieldHist2 b s0 ss).1 (ss.foldl V2.cmul p) ∧ (heightfieldHist2 b s0 ss).2 = ss.foldl V2.cmul s0 := by
+  induction ss with
+  | nil => intro b s0 p _ _ h; exact ⟨h, rfl⟩
+  | cons s ss ih =>
+    intro b s0 p h0 hs h
+    simp only [heightfieldHist2, List.foldl_cons]
+    have hs1 := hs s (by simp)
+    have hnz : (@V2.cmul K (fieldNum K sq) s0 s).x ≠ 0 ∧ (@V2.cmul K (fieldNum K sq) s0 s).y ≠ 0 :=
+      ⟨mul_ne_zero h0.1 hs1.1, mul_ne_zero h0.2 hs1.2⟩
+    have e : @heightfieldRescale2 K (fieldNum K sq) b s0 s = @Aabb2.scaled K (fieldNum K sq) b s := by
+      simp only [heightfieldRescale2, Aabb2.scaled, V2.cmul]
+      rw [mul_div_cancel_left₀ _ h0.1, mul_div_cancel_left₀ _ h0.2]
+    refine ih _ _ _ hnz (fun t ht => hs t (by simp [ht])) ?_
+    rw [e]; exact aabb2_scaled_contains sq b s p h
 
 end C09
